@@ -811,6 +811,46 @@ class _ObserverRun:
         b = bytes(x)
         return b, presence_report(x, cls)
 
+    def observe_somewhere(self, m, cls, k: int) -> str:
+        """Observer k on the message itself or - one time in four - on a message NESTED in it (a present one, a
+        lazily defaulted one, an element of a repeated field, a map value), one or two levels down: reading a
+        part of a message is reading the message, and the root is what gets judged."""
+        t = self.tape
+        if t.draw(4, "observe-nested?") != 3:
+            return self.observe(m, cls, k)
+        target, path = m, ""
+        for _ in range(1 + t.draw(2, "nested-depth")):
+            subs = [fi for fi in class_info(type(target)).fields
+                    if fi.proto_type == "message" and not fi.wraps and isinstance(fi.py_cls, type)
+                    and issubclass(fi.py_cls, betterproto.Message) or (fi.is_map and fi.map_value_cls is not None
+                                                                      and issubclass(fi.map_value_cls, betterproto.Message))]
+            if not subs:
+                break
+            fi = t.choice(subs, "nested-field")
+            try:
+                v = getattr(target, fi.name)
+            except AttributeError:
+                break                      # an unselected oneof member
+            if isinstance(v, list):
+                if not v:
+                    break
+                v = v[t.draw(len(v), "nested-index")]
+            elif isinstance(v, dict):
+                if not v:
+                    break
+                v = v[sorted(v, key=repr)[t.draw(len(v), "nested-key")]]
+            if not isinstance(v, betterproto.Message):
+                break                      # None in an optional field
+            target, path = v, path + "." + fi.name
+        if target is m:
+            return self.observe(m, cls, k)
+        keep, self.partner = self.partner, None
+        try:
+            self.stats["probe:observer-applied-to-a-nested-message"] += 1
+            return f"[{path[1:]}] " + self.observe(target, type(target), k)
+        finally:
+            self.partner = keep
+
     def observe(self, m, cls, k: int) -> str:
         t = self.tape
         ci = class_info(cls)
@@ -987,7 +1027,7 @@ class _ObserverRun:
         obs_log = []
         for _ in range(n_obs):
             k = tape.weighted([4, 2, 1, 2, 1, 2, 3, 2, 3, 1, 1, 1, 2, 1], "observer")
-            obs_log.append(self.observe(m, cls, k))
+            obs_log.append(self.observe_somewhere(m, cls, k))
             steps += 1
         trace.append("observers: " + ", ".join(obs_log))
         self._q1(m, twin, cls, "C14.Q1", f"after observers [{', '.join(obs_log)}]")
@@ -1044,7 +1084,7 @@ class _ObserverRun:
             self._q1(m, twin, cls, "C14.Q1", f"after observers [{', '.join(obs_log)}] and then identical mutations "
                                              f"[{what}] on the observed original and on its never-observed twin")
             k = tape.weighted([4, 2, 1, 2, 1, 2, 3, 2, 3, 1, 1, 1, 2, 1], "observer")
-            obs_log.append(self.observe(m, cls, k))
+            obs_log.append(self.observe_somewhere(m, cls, k))
         return True, steps, float(steps)
 
     def _q1(self, m, twin, cls, rule: str, when: str):
